@@ -34,6 +34,22 @@ SKIP = {"input", "inputs", "debug", "stderr", "input_filename", "halt", "halt_er
 SLOW = {"repeat", "range", "until", "while", "recurse", "limit", "combinations", "walk"}
 
 
+# targeted cells for the text codecs of Formats.tla: (input, arguments) pools per family
+TEXTS = ["", "a b+c%2F~-_.", "%zz", "%", "%4", "%41%C3%A9", "%ff", "a+b", "YQ==", "YWI", "YWJj\n", "Y", "YQ", "!!", "YW=Jj", "w6k=", "/+8=", "<a href='x'>&\"", "a\tb\\c\r\n", "it's", "\u0000x", "日本 語", "é",
+         "{\"a\":[1,2.5,\"x\\u00e9\\ud83d\\ude00\"],\"b\":null}", "[1,]", "01", "1e2", " [ ] ", "\"\\ud800\"", "\"\\ud800\\u0041\"", "nul", "{\"a\":1,\"a\":2}", "[1] x", "-", "1.", "-0", "[1,[2,{\"k\":[]}]]", "\"a\nb\"",
+         "\"\\q\"", "{\"a\" 1}", "{a:1}", "tru", "true ", "1E3", "0.25", "123456789012345678901234567890", "[\"\\u00zz\"]", "\t\n 7 \r", "abcabca", "aaa", "a,b,,c", "AbaB"]
+EPOCHS = [-1.5, -0.5, -86400.25, -0.25, 1.5, 0.5, -1, -86401, 86399.75, 1425599621, -62135596800, 253402300799, 1e12, -2.5e9, [1970, 0, 1, 0, 0, -1.5], [2015, 2, 5, 23, 51, 47.5, 4, 63], [2024, 13, 32, 25, 61, 61], [2020],
+          [1969, 11, 31, 23, 59, 59.5], [2000, 1, 29], [1900, 1, 29, 0, 0, 0], ["a"], [2015, "x"], [], [1e3, 0, 1], [1.5, 0.5, 1.5, 0, 0, 0]]
+TIMEFMTS = ["%Y-%m-%dT%H:%M:%SZ", "%A, %B %d, %Y", "%a %b %e %H:%M:%S %Z %Y", "%j %u %w %y %I %p %%", "%F %T %D %R %z", "%s", "%", "%q", "%-d", "plain é", "", 1, None]
+ISOTEXTS = ["2015-03-05T23:51:47Z", "1969-12-31T23:59:59Z", "0001-01-01T00:00:01Z", "9999-12-31T23:59:59Z", "2016-02-29T00:00:00Z", "2015-02-29T00:00:00Z", "2015-13-01T00:00:00Z", "2015-03-05 23:51:47", "2015-03-05T23:51:47+09:00", "x", "", 5]
+ROWS = [[float("nan"), 1], ["a", 1, None, True], ["x\"y", "p\tq", 1.5], [None, None], ["it's", "\u0000"], [[1]], [{"a": 1}, "z"], ["a", 2 ** 64 + 1, -0.5], "plain", 5, None, {"a": 1}, [False, "é日", ""]]
+RES = ["a", "", "ab", ",", "é", "b", "abc", "A", "a,b", " ", "a.c", "a+", "(a)", "[ab]", "^a", "\\d"]
+FLAGS = [None, "g", "", "gi", "i", "m", "x", "gx", "ig", 1]
+TEXT_NATIVES = {"@html", "@uri", "@urid", "@base64", "@base64d", "@text", "@json", "fromjson", "ascii_downcase", "ltrimstr", "tojson", "tostring", "tonumber", "utf8bytelength", "explode", "trim", "ltrim", "rtrim"}
+ROW_NATIVES = {"@csv", "@tsv", "@sh"}
+RE_NATIVES = {"test", "match", "capture", "scan", "splits", "split", "sub", "gsub"}
+
+
 def small_numbers(v):
     t = v.get("t")
     if t == "num":
@@ -99,13 +115,35 @@ def run(tier, seed, replay):
                 for big in (list(range(20, 0, -1)), [{"k": i % 3, "i": i} for i in range(16)], [1, 2 ** 64 + 1, "a"], [128, 55296, 1114112, -1]):
                     ins.append({"t": "arr", "a": [jqgen.V(big)] + [r.choice(sub) for _ in range(ar)]})
                     ins.append({"t": "arr", "a": [jqgen.V(big)] + [jqgen.V(x) for x in (["-", None, 0] if name == "join" else [0, None, "k"])][:ar]})
+            if name in TEXT_NATIVES and ar == 0:
+                ins += [{"t": "arr", "a": [jqgen.V(t)]} for t in (TEXTS if not quick else r.sample(TEXTS, 20))]
+            if name in ("gmtime", "mktime", "todate", "todateiso8601", "dateadd", "datesub", "date", "strftime", "localtime", "strflocaltime"):
+                for e in EPOCHS:
+                    ins.append({"t": "arr", "a": [jqgen.V(e)] + [jqgen.V(r.choice(TIMEFMTS)) for _ in range(ar)]})
+            if name in ("strftime",):
+                for f in TIMEFMTS:
+                    ins.append({"t": "arr", "a": [jqgen.V(r.choice(EPOCHS)), jqgen.V(f)]})
+            if name in ("fromdate", "fromdateiso8601", "strptime", "dateadd"):
+                for t in ISOTEXTS:
+                    ins.append({"t": "arr", "a": [jqgen.V(t)] + [jqgen.V(r.choice(["%Y-%m-%dT%H:%M:%S%z", "%Y-%m-%dT%H:%M:%S%z", "%F", 1]))for _ in range(ar)]})
+            if name in RE_NATIVES:
+                k = 30 if quick else 400
+                for _ in range(k):
+                    tup = [r.choice(TEXTS + ["abcabca", "aaa", "a,b,,c", "AbaB", "ééa"]), r.choice(RES)]
+                    if name in ("sub", "gsub"):
+                        tup.append(r.choice(["X", "", "[\\(.)]" if False else "é", 1, None]))
+                    tup += [r.choice(FLAGS) for _ in range(ar + 1 - len(tup))]
+                    ins.append({"t": "arr", "a": [jqgen.V(x) for x in tup[:ar + 1]]})
             src = ".[0] as $x | .[1] as $a | .[2] as $b | .[3] as $c | $x | " + call(name, ar)
             cases.append({"src": src, "inputs": ins, "name": name + "/%d" % ar})
         for op in OPERATORS:
             ins = [{"t": "arr", "a": [a, b]} for a in uni for b in uni] if not quick else tuples(1, 120)
             cases.append({"src": ".[0] %s .[1]" % op, "inputs": ins, "name": op})
         for fmt in ["@text", "@json", "@html", "@uri", "@urid", "@csv", "@tsv", "@sh", "@base64", "@base64d"]:
-            cases.append({"src": ".[0] | " + fmt, "inputs": tuples(0, per), "name": fmt})
+            extra_in = [{"t": "arr", "a": [jqgen.V(t)]} for t in (ROWS if fmt in ROW_NATIVES else TEXTS)]
+            cases.append({"src": ".[0] | " + fmt, "inputs": tuples(0, per) + (extra_in if not quick else r.sample(extra_in, min(len(extra_in), 24))), "name": fmt})
+            cases.append({"src": ".[0] | format(\"%s\")" % fmt[1:], "inputs": tuples(0, 4) + r.sample(extra_in, min(len(extra_in), 6)), "name": "format:" + fmt})
+            cases.append({"src": ".[0] | %s \"<\\(.)|\\(.[0]?)>\"" % fmt, "inputs": tuples(0, 4) + r.sample(extra_in, min(len(extra_in), 6)), "name": "interp:" + fmt})
         for extra in [".[0] | .[.[1]?]?" if False else ".[0][.[1]]", ".[0][.[1]:.[2]]", ".[0] | -.", ".[0] | .[]?", ".[0] | [..]", ".[0] | tojson | fromjson", ".[0] | tostring", ".[0] | ascii_downcase | ascii_upcase",
                       ".[0] | to_entries | from_entries", ".[0] | getpath([.[1]?])" if False else ".[0] | getpath([\"a\", 0])", ".[0] | paths", ".[0] | [leaf_paths]" if False else ".[0] | [paths(type == \"number\")]"]:
             cases.append({"src": extra, "inputs": tuples(2, per * 2), "name": extra})
